@@ -19,6 +19,9 @@ import (
 	"k3l.io/go-eigentrust/pkg/sparse"
 )
 
+// matrices found damaged are kept reachable so that the GC never runs their finalizer
+var graveyard []*sparse.CSMatrix
+
 func mappedRange(m *sparse.CSMatrix) (uintptr, uintptr, bool) {
 	f := reflect.ValueOf(m).Elem().FieldByName("mapped")
 	if !f.IsValid() || f.Len() == 0 {
@@ -179,8 +182,18 @@ func runC12(h *H) {
 				w.Bar().Str("panic")
 				break
 			}
-			nonEmpty, inMap := rowResidency(cur)
-			w.Bar().Str(status).CSM(cur).Bool(isMapped(cur)).Int(nonEmpty).Int(inMap).Int(tmpFiles(tmp)).Int(swapMapLines() - baseMaps)
+			obs := &W{}
+			pan2 := safely(func() {
+				nonEmpty, inMap := rowResidency(cur)
+				obs.Str(status).CSM(cur).Bool(isMapped(cur)).Int(nonEmpty).Int(inMap).Int(tmpFiles(tmp)).Int(swapMapLines() - baseMaps)
+			})
+			if pan2 != "" { // reading the matrix faulted (e.g. a row points into an unmapped region)
+				w.Bar().Str("panic")
+				graveyard = append(graveyard, cur) // keep the damaged matrix reachable: its finalizer would fault
+				cur = &sparse.CSMatrix{}
+				break
+			}
+			w.Bar().Str(obs.String())
 		}
 		// drop the matrix: the finalizer must release the mapping
 		cur = nil
